@@ -111,6 +111,16 @@ def compatible(item, strict=True):
                 for names2, gens2 in per_attr:
                     if sup in names2 and gens2 not in ('', gens):
                         return False
+    src = item.rust()
+    # an item-level `crate = ..` option: B's dependency on derive-where is not renamed, so the option either is an error
+    # (stage 1) or names nothing; correspondence C compiles these items against the renamed crate
+    for a in item.attrs:
+        if a.kind == 'dw' and a.body.notlist is None and \
+                any(not isinstance(e, str) and e.path.rust() == 'crate' for e in a.body.elems):
+            return False
+    # a zeroize crate path that names nothing in the harness crate (E0432/E0433 are not the macro's)
+    if re.search(r'Zeroize(OnDrop)?\s*\(\s*crate\s*=\s*"?(?![\s"])(?!(::)?zeroize_?\b|krate::zeroize\b)', src):
+        return False
     trl = derived_traits(item)
     if len(trl) != len(set(trl)):
         return False          # same trait in two attributes: E0119 is the user's
